@@ -483,8 +483,9 @@ PathOf(u)    == LET r == RestOf(u) i == Find(r, QM) IN IF i = 0 THEN r ELSE Slic
 
 IsAscii(u)  == AllAscii(u)
 NoWsC0(u)   == \A i \in 1..Len(u) : u[i] > 32
-LowerSchemeHost(u) == WellFormed(u) /\ (\A i \in 1..Len(SchemeOf(u)) : ~IsUpperAZ(SchemeOf(u)[i]))
-                                    /\ (\A i \in 1..Len(HostOf(u)) : ~IsUpperAZ(HostOf(u)[i]))
+LowerSchemeHost(u) == WellFormed(u) /\ LET sc == SchemeOf(u) h == HostOf(u) IN
+                                       /\ \A i \in 1..Len(sc) : ~IsUpperAZ(sc[i])
+                                       /\ \A i \in 1..Len(h) : ~IsUpperAZ(h[i])
 DefaultPortOmitted(u) == WellFormed(u) /\
                          (HasPort(u) => LET p == PortTextOf(u) IN
                                          /\ Len(p) > 0 /\ (\A i \in 1..Len(p) : IsDigit(p[i]))
@@ -690,7 +691,8 @@ Variants(b) ==
       Nots(I) == IF I = {} THEN <<>>
                  ELSE LET i == MinOf(I) IN
                       << <<"notation:" \o HostCat[i].k, Render([b EXCEPT !.ho = HostCat[i].t])>> >> \o Nots(I \ {i})
-  IN IF Len(b.ho) = 0 THEN <<>>       \* without a host the structure is not what the parser sees
+  IN IF Len(b.ho) = 0 \/ (~Has(b.sc, COLON) /\ b.pk # "none")
+     THEN <<>>       \* without a host, or "host:port" without a scheme, the structure is not what the parser sees
      ELSE
      V("case", Render([b EXCEPT !.sc = UpperS(@), !.ho = UpperS(@)]))
      \o (IF b.pk = "none" /\ Len(b.dp) > 0 /\ Has(b.sc, COLON) THEN   \* (without a scheme, "h:80" reads as scheme "h")
